@@ -1271,10 +1271,11 @@ private:
         execute_return (library_sm::*pf) (EventType const&, EventSource) =
             &library_sm::process_event_internal;
 
+        // the event is sent to this machine, like a process_event call on it
         m_events_queue.m_events_queue.push_back(
             ::boost::bind(
                 pf, this, evt,
-                static_cast<EventSource>(EVENT_SOURCE_MSG_QUEUE)));
+                static_cast<EventSource>(EVENT_SOURCE_DIRECT | EVENT_SOURCE_MSG_QUEUE)));
     }
     template <class EventType>
     void enqueue_event_helper(EventType const& , ::boost::mpl::true_ const &)
